@@ -6,6 +6,7 @@ import (
 	"go/constant"
 	"go/token"
 	"go/types"
+	"lwverif/internal/guards"
 	"sort"
 	"strings"
 
@@ -250,6 +251,17 @@ func c20EIRPGuard(c *Ctx) {
 			}
 			n++
 			_, upper, facts := indexGuards(b, p, ia.X)
+			if !upper {
+				// guards written another way than the matcher reads: the facts engine decides the same obligation
+				switch st, why := e3IndexVerdict(P, fn, ins); st {
+				case guards.Proved:
+					r.OK("R3.eirp", "lorawan.GetTXParamSetupEIRP/index-guard", P.Rel(ins.Pos()), "index <= len(eirpTable)-1 dominates the table read", "E3: "+why, true)
+					continue
+				case guards.Unsupported:
+					r.Unknown("R3.eirp", "lorawan.GetTXParamSetupEIRP/index-guard", P.Rel(ins.Pos()), "index <= len(eirpTable)-1 dominates the table read", "E3: "+why)
+					continue
+				}
+			}
 			r.Check(upper, "R3.eirp", "lorawan.GetTXParamSetupEIRP/index-guard", P.Rel(ins.Pos()), "index <= len(eirpTable)-1 dominates the table read", fmt.Sprint(facts), true)
 		}
 	}
